@@ -101,11 +101,14 @@ type Prepared struct {
 	Vars exec.Vars
 	Opts []exec.Option
 	Base context.Context
+
+	useTZ bool
 }
 
 // Prepare builds the real path (through the exported ast constructors), the
-// Go document and the options.
-func Prepare(c wire.Case, silent bool) (*Prepared, error) {
+// Go document and the variables. The same document and variables serve the
+// verbose and the silent run, so that address-derived keyvalue ids agree.
+func Prepare(c wire.Case) (*Prepared, error) {
 	a, err := c.Path.AST()
 	if err != nil {
 		return nil, err
@@ -116,20 +119,29 @@ func Prepare(c wire.Case, silent bool) (*Prepared, error) {
 		for _, v := range c.Vars {
 			p.Vars[wire.Str(v.K)] = v.V.ToGo(c.JNum)
 		}
-		p.Opts = append(p.Opts, exec.WithVars(p.Vars))
 	}
-	if silent {
-		p.Opts = append(p.Opts, exec.WithSilent())
-	}
-	if c.UseTZ {
-		p.Opts = append(p.Opts, exec.WithTZ())
-	}
+	p.useTZ = c.UseTZ
 	loc, err := Zone(c.Zone)
 	if err != nil {
 		return nil, err
 	}
 	p.Base = types.ContextWithTZ(context.Background(), loc)
+	p.SetSilent(false)
 	return p, nil
+}
+
+// SetSilent selects the option set of the following calls.
+func (p *Prepared) SetSilent(silent bool) {
+	p.Opts = nil
+	if p.Vars != nil {
+		p.Opts = append(p.Opts, exec.WithVars(p.Vars))
+	}
+	if silent {
+		p.Opts = append(p.Opts, exec.WithSilent())
+	}
+	if p.useTZ {
+		p.Opts = append(p.Opts, exec.WithTZ())
+	}
 }
 
 // containers collects the identities of all arrays and objects in x.
@@ -293,12 +305,8 @@ func (p *Prepared) One(ctx context.Context, call Call, known map[uintptr]bool) w
 	return o
 }
 
-// Observe runs the five entry points of a case under one option set.
-func Observe(c wire.Case, silent bool) (wire.RunObs, error) {
-	p, err := Prepare(c, silent)
-	if err != nil {
-		return wire.RunObs{}, err
-	}
+// Observe runs the five entry points under the current option set.
+func (p *Prepared) Observe() wire.RunObs {
 	known := map[uintptr]bool{}
 	containers(p.Doc, known)
 	containers(p.Vars, known)
@@ -313,18 +321,17 @@ func Observe(c wire.Case, silent bool) (wire.RunObs, error) {
 	r.Match = p.One(p.Base, Match, known)
 	r.EOM = p.One(p.Base, EOM, known)
 	r.Mut = !reflect.DeepEqual(docCopy, p.Doc) || !reflect.DeepEqual(varsCopy, p.Vars)
-	return r, nil
+	return r
 }
 
 // ObserveCase produces the exec-family record of a case.
 func ObserveCase(id int, c wire.Case) (wire.ExecRec, error) {
-	v, err := Observe(c, false)
+	p, err := Prepare(c)
 	if err != nil {
 		return wire.ExecRec{}, err
 	}
-	s, err := Observe(c, true)
-	if err != nil {
-		return wire.ExecRec{}, err
-	}
+	v := p.Observe()
+	p.SetSilent(true)
+	s := p.Observe()
 	return wire.ExecRec{ID: id, Case: c, V: v, S: s}, nil
 }
